@@ -13,9 +13,21 @@
                        capture list / extended SETLIST, string-keyed instructions, ends in RETURN, line table).
   The tie to the real compiler is translation validation: the harness runs `wf` on every FunctionProto the real
   front-end produces (harness/c07.go); a `false` is a property violation with the source as replay.
+  (4) `compile_fragment_*` : for the FRAGMENT of the compiler that is modelled function by function (Model/Compile.lean,
+                       Model/CompileStmt.lean: conditions, logical / relational operators, local / global assignment,
+                       if / while / repeat / return / local, patchCode with jump threading and MOVEN merging, the word
+                       encoder; tied word for word to the real compiler by harness/c01_mech.go and, through `fragProto`,
+                       by harness/c07_frag.go) the half that (1)–(3) leave to translation validation is PROVED:
+                       every program the model compiler accepts is compiled to a prototype that `wf` accepts
+                       (`compile_fragment_wf`), hence never faults in the abstract VM (`compile_fragment_never_faults`).
+                       Proof: an invariant of the compile state preserved by every compile function (induction over
+                       the program, Proofs/CompileWf{Defs,Expr,Stmt}.lean), an index invariant of patchCode's loop
+                       (Proofs/CompileWfPatch.lean), encoder ∘ regenerated decoders (Proofs/CompileWfEncode.lean), and
+                       a certificate ⇒ wf lemma (Proofs/CompileWf{Verifier,Cert,Main}.lean).
 -/
 import GLua.Proofs.OpcodeRT
 import GLua.Proofs.Verifier
+import GLua.Proofs.CompileWfMain
 
 namespace GLua.Props.C07
 open GLua GLua.Verifier GLua.Generated GLua.Proofs.OpcodeRT GLua.Proofs.Verifier
@@ -313,5 +325,185 @@ theorem unfixed_outputs_rejected :
     wf unfixedClosureProto = false ∧ wf unfixedGenforProto = false ∧ wf unfixedLoopRegProto = false ∧
     wf kfAssignProto = false ∧ faultOf kfAssignProto 7 = some "gopanic:register read outside the frame" ∧
     faultOf unfixedGenforProto 3 = some "gopanic:register read outside the frame" := by decide +kernel
+
+/-! ## (4) compile ⇒ wf, proved for the modelled compiler fragment -/
+
+section fragment
+open GLua.Compile GLua.MiniVM GLua.CompileWf
+
+/-- **compile_fragment_wf** — every program of the modelled fragment that satisfies the explicit guards `FragOK`
+    (well scoped: every local it mentions is below the register top the compiler has at that point; accepted by the
+    model compiler, i.e. patchCode raises neither "too long to jump." nor "register overflow"; code shorter than 2^17
+    words; at most 2^18 constants) is compiled — compileFunctionExpr → patchCode → encoder → FunctionProto — to a
+    prototype that the verifier accepts. -/
+theorem compile_fragment_wf (nlocals : Nat) (body : Block) (h : FragOK nlocals body = true) :
+    ∃ p, fragProto nlocals body = .ok p ∧ wf p = true :=
+  fragOK_wf nlocals body h
+
+/-- … and therefore no run of the compiled prototype takes a Go-panic branch of the VM model, every reachable pc is an
+    instruction start inside the code (`wf_sound` composed with `compile_fragment_wf`). -/
+theorem compile_fragment_never_faults (nlocals : Nat) (body : Block) (h : FragOK nlocals body = true) (p : Proto)
+    (hp : fragProto nlocals body = .ok p) {pc : Nat} (hr : Reach p pc) :
+    pc < p.code.size ∧ isStart p pc = true ∧ (∃ succs, step p pc = .ok succs) ∧ ∀ site, step p pc ≠ .error (.goPanic site) := by
+  obtain ⟨p', hp', hwf⟩ := compile_fragment_wf nlocals body h
+  rw [hp] at hp'; cases hp'
+  exact ⟨wf_pc_in_code hwf hr, (wf_sound hwf hr).1, (wf_sound hwf hr).2, wf_never_panics hwf hr⟩
+
+/-- the guards are satisfiable by a non-trivial program: `local l0, l1 = ...` then a while loop with a compound
+    condition and a swapping multiple assignment, if/else with return and a global store, repeat with a body local
+    used by the until-condition (more than 20 words, 3 registers). -/
+def fragSample : Block := Block.ofList [
+  .whileS (.and (.rel .lt (.loc 0) (.num 3)) (.not (.ev 0)))
+    (Block.ofList [.assign [.loc 0, .loc 1] [.loc 1, .or (.loc 0) (.num 1)]]),
+  .ifS (.rel .eq (.loc 0) (.loc 1)) (Block.ofList [.ret [.loc 0]]) (Block.ofList [.assign [.glob 1] [.nil]]),
+  .repeatS (Block.ofList [.localDef (.rel .le (.loc 0) (.ev 0))]) (.loc 2)]
+
+theorem fragSample_ok : FragOK 2 fragSample = true ∧
+    (fragProto 2 fragSample).toOption.map (fun p => (decide (20 < p.code.size), p.numRegs)) = some (true, 3) := by
+  decide +kernel
+example : ∃ p, fragProto 2 fragSample = .ok p ∧ wf p = true := compile_fragment_wf 2 fragSample fragSample_ok.1
+
+/-- the scoping guard is necessary: `return l5` with two chunk locals is compiled by the model (the real compiler never
+    sees such a tree: name resolution would make `l5` a global) to `RETURN 5 2` with NumUsedRegisters = 3, which the
+    verifier rejects — so `FragOK` cannot be weakened to "the model compiler succeeds". -/
+theorem compile_fragment_needs_scoping :
+    scopeOK 2 (Block.ofList [.ret [.loc 5]]) = false ∧
+    (fragProto 2 (Block.ofList [.ret [.loc 5]])).toOption.map (fun p => (wf p, p.numRegs)) = some (false, 3) := by
+  decide +kernel
+
+/-! ### the sub-properties, in the property's words (all corollaries of `compile_fragment_wf`; (1)–(4) of the task) -/
+
+/-- in a prototype of the fragment every word is an instruction start (there is no CLOSURE capture list and no
+    extended SETLIST; MOVEN tails are complete MOVE instructions, see calibration 1 in notes/C07.md). -/
+theorem compile_fragment_all_starts (nlocals : Nat) (body : Block) (h : FragOK nlocals body = true) (p : Proto)
+    (hp : fragProto nlocals body = .ok p) {pc : Nat} (hpc : pc < p.code.size) : isStart p pc = true := by
+  unfold FragOK at h
+  rw [Bool.and_eq_true] at h
+  obtain ⟨hs, hg⟩ := h
+  unfold fragProto at hg hp
+  simp only [] at hg hp
+  cases hpat : patchCode (compileMain nlocals body) with
+  | error e => simp [hpat] at hp
+  | ok r =>
+    obtain ⟨code, nregs⟩ := r
+    simp only [hpat, Bool.and_eq_true, decide_eq_true_eq, Except.ok.injEq] at hg hp
+    subst hp
+    have hc := fragOK_cert nlocals body hs code nregs hpat (by have := hg.1; rwa [toProto_code_size] at this)
+      (by have := hg.2; rwa [toProto_consts_size] at this)
+    have hgl : ∀ j, j < (toProto nlocals (compileMain nlocals body).consts code nregs).code.size →
+        groupLen (toProto nlocals (compileMain nlocals body).consts code nregs) j = 1 := by
+      intro j hj
+      rw [toProto_code_size] at hj
+      have hx : code[j]? = some code[j] := by simp [hj]
+      obtain ⟨h1, h2, h3⟩ := xi_op (hc.xi j _ hx)
+      exact groupLen_one (w := encode (compileMain nlocals body).consts code[j]) (by rw [toProto_code_get, hx]; rfl)
+        (by rw [dec_op _ _ h1]; exact h2) (by rw [dec_op _ _ h1]; exact h3)
+    exact (startMap_all _ hgl).2 pc hpc
+
+/-- (1) jump targets: whatever a JMP / conditional skip / LOADBOOL skip / fall-through at any pc of the compiled
+    prototype can continue with (all successors of the abstract VM step, after label resolution, jump threading and
+    MOVEN merging) is inside the code and an instruction start. -/
+theorem compile_fragment_jump_targets (nlocals : Nat) (body : Block) (h : FragOK nlocals body = true) (p : Proto)
+    (hp : fragProto nlocals body = .ok p) {pc : Nat} (hpc : pc < p.code.size) :
+    ∃ succs, step p pc = .ok succs ∧ ∀ s ∈ succs, s < p.code.size ∧ isStart p s = true := by
+  obtain ⟨p', hp', hwf⟩ := compile_fragment_wf nlocals body h
+  rw [hp] at hp'; cases hp'
+  obtain ⟨succs, h1, h2⟩ := wf_sound_step hwf (compile_fragment_all_starts nlocals body h p hp hpc)
+  exact ⟨succs, h1, fun s hs => ⟨(h2 s hs).2, (h2 s hs).1⟩⟩
+
+/-- (2)+(3) registers and constants: `NumUsedRegisters` (patchCode's count) is within the frame limit and every
+    explicit operand condition of the verifier (`hyg`: register operands below NumUsedRegisters, constant indices inside
+    the pool, RK operands well formed, global names are string constants, …) holds at EVERY word. -/
+theorem compile_fragment_operands (nlocals : Nat) (body : Block) (h : FragOK nlocals body = true) (p : Proto)
+    (hp : fragProto nlocals body = .ok p) :
+    p.numRegs ≤ 200 ∧ p.numParams < p.numRegs ∧ ∀ pc, pc < p.code.size → hyg p pc = true := by
+  obtain ⟨p', hp', hwf⟩ := compile_fragment_wf nlocals body h
+  rw [hp] at hp'; cases hp'
+  have hh := wf_header hwf
+  exact ⟨hh.1, hh.2.2.1, fun pc hpc => wf_operands hwf (compile_fragment_all_starts nlocals body h p hp hpc)⟩
+
+/-- (4) the code is not empty, ends in RETURN, and the header counts agree (line table as long as the code — by
+    construction of `toProto`, tied by the harness —, stringConstants as long as Constants). -/
+theorem compile_fragment_ends_in_return (nlocals : Nat) (body : Block) (h : FragOK nlocals body = true) (p : Proto)
+    (hp : fragProto nlocals body = .ok p) :
+    0 < p.code.size ∧ isOp p (p.code.size - 1) 33 = true ∧ p.nLines = p.code.size ∧ p.strConsts.size = p.consts.size := by
+  obtain ⟨p', hp', hwf⟩ := compile_fragment_wf nlocals body h
+  rw [hp] at hp'; cases hp'
+  have hh := wf_header hwf
+  exact ⟨hh.2.2.2.2.2.1, hh.2.2.2.2.2.2.2.2, hh.2.2.2.2.1, hh.2.2.2.2.2.2.1⟩
+
+/-- the literal reading of (1) "a jump never lands inside a MOVEN group" is FALSE of the compiler: patchCode merges
+    MOVE runs across jump targets.  Witness (model compiler = real compiler, word for word):
+    `local l0, l1 = ...  if g0 then l0 = l1 end  l1 = l0` — the JMP at pc 3 lands on pc 5, the tail of the
+    MOVEN at pc 4.  This is why `wf` treats MOVEN tails as instruction starts and demands that they are MOVEs. -/
+def jump_never_into_moven_full : Prop :=
+  ∀ (nlocals : Nat) (body : Block), FragOK nlocals body = true →
+    ∀ code nregs, patchCode (compileMain nlocals body) = .ok (code, nregs) →
+      ∀ (pc : Nat) (d : Int) (j a b c : Nat), code[pc]? = some (.jmp d) → code[j]? = some (.moven a b c) →
+        ¬ ((j : Int) < (pc : Int) + 1 + d ∧ (pc : Int) + 1 + d ≤ (j : Int) + c)
+
+def movenWitness : Block := Block.ofList [
+  .ifS (.ev 0) (Block.ofList [.assign [.loc 0] [.loc 1]]) .nil,
+  .assign [.loc 1] [.loc 0]]
+
+theorem jump_never_into_moven_full_fails : ¬ jump_never_into_moven_full := by
+  intro hall
+  have hok : FragOK 2 movenWitness = true := by decide +kernel
+  have hpat' : (patchCode (compileMain 2 movenWitness)).toOption =
+      some ([.abc 40 0 3 0, .eval 2 0, .test 2 0 0, .jmp 1, .moven 0 1 1, .move 1 0, .ret 0 1], 3) := by decide +kernel
+  have hpat : patchCode (compileMain 2 movenWitness) =
+      .ok ([.abc 40 0 3 0, .eval 2 0, .test 2 0 0, .jmp 1, .moven 0 1 1, .move 1 0, .ret 0 1], 3) := by
+    cases hx : patchCode (compileMain 2 movenWitness) with
+    | error e => rw [hx] at hpat'; cases hpat'
+    | ok v => rw [hx] at hpat'; simp only [Except.toOption, Option.some.injEq] at hpat'; rw [hpat']
+  exact hall 2 movenWitness hok _ _ hpat 3 1 4 0 1 1 rfl rfl ⟨by decide, by decide⟩
+
+/-! ### the compile-state invariant and patchCode, as statements of their own -/
+
+/-- the invariant behind the proof, for every well-scoped program (no size guard): scanning the UNPATCHED code with
+    patchCode's register high-water mark, every instruction only reads registers counted before it, constant / RK /
+    global-name operands are inside the pool; every label is bound inside the code; the code is `c ++ [RETURN 0 1]`
+    and `c` does not end in an instruction that can skip. -/
+theorem compile_fragment_invariant (nlocals : Nat) (body : Block) (hs : scopeOK nlocals body = true) :
+    Inv (compileMain nlocals body) ∧
+    (∀ p ∈ (compileMain nlocals body).labelPc, -1 ≤ p.2 ∧ p.2 + 1 < ((compileMain nlocals body).code.length : Int)) ∧
+    ∃ c, (compileMain nlocals body).code = c ++ [.ret 0 1] ∧ (∀ i, c.getLast? = some i → isSkip i = false) :=
+  main_post nlocals body hs
+
+/-- patchCode, index by index (ANY compile state): the length is kept, NumUsedRegisters is the fold of `maxregOf`
+    plus one and within maxRegisters, and at every index the patched instruction is related to the unpatched one by
+    `Fin`: JMP ↦ JMP distance-of-threadJmp / NOP, the first MOVE of a maximal run of ≥ 2 MOVEs that is followed by
+    another instruction ↦ MOVEN with C = min(run − 1, 511), everything else unchanged. -/
+theorem patchCode_index_invariant (st : CState) (code : List Instr) (nregs : Nat) (h : patchCode st = .ok (code, nregs)) :
+    code.length = st.code.length ∧ nregs = mr st.code + 1 ∧ nregs ≤ maxRegisters ∧
+    ∀ j, j < st.code.length → ∃ x, code[j]? = some x ∧ Fin st.code st.labelPc j x :=
+  patchCode_spec st code nregs h
+
+/-- the compiler itself does not fault on a well-scoped program: the model's `threadJmp` never reaches its
+    out-of-range index (`orig[pc+distance+1]`), the only failures of patchCode are the two compile errors. -/
+theorem compile_fragment_errors (nlocals : Nat) (body : Block) (hs : scopeOK nlocals body = true) (e : String)
+    (h : patchCode (compileMain nlocals body) = .error e) :
+    e = "too long to jump." ∨ e = "register overflow(too many local variables)" := by
+  have hlg := (origOK_main nlocals body hs).lg
+  unfold patchCode at h
+  simp only [bind, Except.bind, pure, Except.pure] at h
+  cases hl : patchLoop (compileMain nlocals body).code (compileMain nlocals body).labelPc (compileMain nlocals body).code.length 0
+      { code := (compileMain nlocals body).code, maxreg := 1, moven := 0 } with
+  | error e' =>
+    simp only [hl, Except.error.injEq] at h
+    subst h
+    exact Or.inl (patchLoop_errors _ _ hlg _ _ _ _ hl)
+  | ok ps =>
+    simp only [hl] at h
+    split at h
+    · simp only [Except.error.injEq] at h; exact Or.inr h.symm
+    · cases h
+
+/-- both errors occur (so `FragOK`'s "accepted by the compiler" is a real guard): 200 chunk locals overflow the frame. -/
+example : (match fragProto 200 .nil with
+    | .error e => e == "register overflow(too many local variables)"
+    | .ok _ => false) = true := by decide +kernel
+
+end fragment
 
 end GLua.Props.C07
